@@ -29,6 +29,10 @@ type IssuerList struct {
 // Entry - Revocation Data for a single Certificate
 type Entry struct {
 	SerialNumber *big.Int
+
+	// RawIssuer is the DER encoding of the issuer name of the disallowed
+	// certificate; Check compares it when it is present.
+	RawIssuer []byte `json:"-"`
 }
 
 // Parse raw disallowedcert.sst and return an instance of DisallowedCerts,
@@ -46,6 +50,12 @@ func Check(disallowed *DisallowedCerts, cert *x509.Certificate) *Entry {
 		return nil
 	}
 	for _, entry := range issuersRevokedCerts.Entries {
+		// The list was found by the rendering of the issuer name, which is the
+		// same for names that differ only in their DER (e.g. string types):
+		// such a name is another issuer.
+		if entry.RawIssuer != nil && !bytes.Equal(entry.RawIssuer, cert.RawIssuer) {
+			continue
+		}
 		if entry.SerialNumber.Cmp(cert.SerialNumber) == 0 {
 			return entry
 		} // cert not found if for loop completes
@@ -169,6 +179,7 @@ func parse(byteData []byte) (*DisallowedCerts, error) {
 		}
 		entry := &Entry{
 			SerialNumber: cert.SerialNumber,
+			RawIssuer:    cert.RawIssuer,
 		}
 		issuerStr := cert.Issuer.String()
 		issuerList := disallowed.IssuerLists[issuerStr]
